@@ -138,8 +138,8 @@ def draw_op(rng, t, allow_grow=True):
         if not allow_grow:
             return draw_op(rng, t, allow_grow)
         rb = G.random_recipe(rng, max_n=12, extras=0,
-                             geoms=["growth", "gauss", "int", "coincident"])
-        b = G.build(G.spec_from_recipe(rb), with_tag=False, comments=["second"])
+                             geoms=["growth", "gauss", "int", "coincident", "plane"])
+        b = G.build(G.spec_from_recipe(rb), with_tag=False, comments=["second"], frozen_ok=True)
         a_, b_ = int(rng.integers(0, n)), int(rng.integers(0, len(b)))
         tr = bool(rng.random() < .5)
         return (f"cat_tree(a={a_}, b={b_}, translate={tr})",
@@ -224,7 +224,7 @@ def _run_pipeline(ctx, case):
     rec = contracts.install()
     rng = np.random.default_rng(case["pseed"])
     spec = G.spec_from_recipe(case["tree"])
-    t = G.build(spec, with_tag=False, comments=["first", "  second"])
+    t = G.build(spec, with_tag=False, comments=["first", "  second"], frozen_ok=True)
     max_n = 300 if ctx.quick else 3000
     for step in range(case["length"]):
         label, fn, extra, kind = draw_op(rng, t, allow_grow=len(t) < max_n)
@@ -303,6 +303,10 @@ def _run_pipeline(ctx, case):
             # keep the result's own dtypes (the constructor re-casts ids to int32): an operation
             # that aliases its input only for some dtype must meet that dtype in the next step
             t.ndata[k_] = np.array(v_, copy=True)
+        if rng.random() < 0.2:  # the caller froze its arrays: operations copy, they never write
+            for v_ in t.ndata.values():
+                v_.setflags(write=False)
+            ctx.count("steps_on_readonly_columns")
         if not np.all(np.isfinite(t.xyz())):
             ctx.skip("non-finite coordinates reached; pipeline stopped")
             return
@@ -321,7 +325,7 @@ def run(ctx):
     n_pipes = ctx.scale(700, 12000)
     for k in range(n_pipes):
         rc = G.random_recipe(rng, max_n=G.size_ladder(ctx, k, 10, 40, 150), extras=0,
-                             geoms=["growth", "gauss", "far", "int", "quarter", "coincident",
+                             geoms=["growth", "gauss", "far", "int", "quarter", "coincident", "plane",
                                     "axis", "big"])
         case = {"tree": rc, "pseed": int(rng.integers(0, 2**31 - 1)),
                 "length": int(rng.integers(1, 9 if ctx.quick else 26))}
